@@ -456,6 +456,10 @@ def apply_event(run: Run, ev, check=True):
         elif kind == "branch":
             run.s = s.branch()
             ans = ("branched",)
+        elif kind == "blank":
+            run.s = s.blank_copy()  # a fresh solver of the same kind: no constraints
+            run.ref = []
+            ans = ("blank",)
         elif kind == "forkdrop":
             s.branch()  # a sibling is created and dropped; s itself carries on
             ans = ("forkdropped",)
